@@ -257,3 +257,36 @@ func (c *Cond) Broadcast() {
 	c.waiters = nil
 	s.logEvent(t.id, OpDone, c.ord)
 }
+
+// ---- additions (go1.23 And/Or, Value.CompareAndSwap) ---------------------------
+
+func (x *Int32) And(m int32) int32    { atomicOp(unsafe.Pointer(x)); o := x.v; x.v &= m; return o }
+func (x *Int32) Or(m int32) int32     { atomicOp(unsafe.Pointer(x)); o := x.v; x.v |= m; return o }
+func (x *Int64) And(m int64) int64    { atomicOp(unsafe.Pointer(x)); o := x.v; x.v &= m; return o }
+func (x *Int64) Or(m int64) int64     { atomicOp(unsafe.Pointer(x)); o := x.v; x.v |= m; return o }
+func (x *Uint32) And(m uint32) uint32 { atomicOp(unsafe.Pointer(x)); o := x.v; x.v &= m; return o }
+func (x *Uint32) Or(m uint32) uint32  { atomicOp(unsafe.Pointer(x)); o := x.v; x.v |= m; return o }
+func (x *Uint64) And(m uint64) uint64 { atomicOp(unsafe.Pointer(x)); o := x.v; x.v &= m; return o }
+func (x *Uint64) Or(m uint64) uint64  { atomicOp(unsafe.Pointer(x)); o := x.v; x.v |= m; return o }
+
+// CompareAndSwap follows sync/atomic.Value: the old value must be comparable.
+func (x *Value) CompareAndSwap(o, n any) bool {
+	atomicOp(unsafe.Pointer(x))
+	if x.v != o {
+		return false
+	}
+	x.v = n
+	return true
+}
+
+func atomAnd[T integer](p *T, m T) T { atomicOp(unsafe.Pointer(p)); o := *p; *p &= m; return o }
+func atomOr[T integer](p *T, m T) T  { atomicOp(unsafe.Pointer(p)); o := *p; *p |= m; return o }
+
+func AndInt32(p *int32, m int32) int32     { return atomAnd(p, m) }
+func AndInt64(p *int64, m int64) int64     { return atomAnd(p, m) }
+func AndUint32(p *uint32, m uint32) uint32 { return atomAnd(p, m) }
+func AndUint64(p *uint64, m uint64) uint64 { return atomAnd(p, m) }
+func OrInt32(p *int32, m int32) int32      { return atomOr(p, m) }
+func OrInt64(p *int64, m int64) int64      { return atomOr(p, m) }
+func OrUint32(p *uint32, m uint32) uint32  { return atomOr(p, m) }
+func OrUint64(p *uint64, m uint64) uint64  { return atomOr(p, m) }
